@@ -4,6 +4,7 @@ Various bits of reusable code related to L{ast.AST} node processing.
 from __future__ import annotations
 
 import inspect
+import re
 import platform
 import sys
 from numbers import Number
@@ -444,6 +445,8 @@ def extract_docstring_linenum(node: Str) -> int:
     
     return lineno
 
+_leading_blank_lines = re.compile(r'\A(?:[^\S\n]*\n)+')
+
 def extract_docstring(node: Str) -> Tuple[int, str]:
     """
     Extract docstring information from an ast node that represents the docstring.
@@ -458,7 +461,12 @@ def extract_docstring(node: Str) -> Tuple[int, str]:
         # TODO: remove me when python3.7 is not supported
         value = node.s
     lineno = extract_docstring_linenum(node)
-    return lineno, encodable_text(inspect.cleandoc(value))
+    doc = inspect.cleandoc(value)
+    # cleandoc() removes the margin first and then drops the leading lines that are empty:
+    # a whitespace-only line longer than the margin survives, but extract_docstring_linenum()
+    # has already skipped it, so every line number reported for the docstring would be one too high.
+    doc = _leading_blank_lines.sub('', doc)
+    return lineno, encodable_text(doc)
 
 def encodable_text(text: str) -> str:
     """
